@@ -11,6 +11,8 @@
 From Coq Require Import ZArith List Bool.
 From CSS Require Import Base.Sx Forest.Spec Forest.Model Forest.Run Forest.Extractor
   Forest.ExtractorRun Forest.ExtractorTheorems Forest.ExtractorTermination Forest.PositionalTotal Forest.Positional Forest.PositionalExtractor.
+From CSS Require Gen.ForestMinimizeOrder.
+From CSS Require Import Forest.GenBridgeExtractor.
 Import ListNotations.
 
 Definition buckets_ok (ks : list bkey) : Prop := forall k, In k ks -> (bk_bucket k < 4)%nat.
@@ -377,6 +379,17 @@ Example C11_harness_value :
   run_c11 (L [I 0; L (map enc_bkey c11_ks)]) = L [I 0; L (map enc_bkey c11_res); I 1].
 Proof. vm_compute. reflexivity. Qed.
 
+(* ================= the bucket order is the source's (translator) =================
+   Extractor.minimize is `for key in MINIMIZE_ORDER: _minimize_key(key)` run over
+   the constant of the source (Gen/ForestMinimizeOrder.v, re-translated from
+   rule_db/forest.py on every run; buckets numbered 0 REVERSE, 1 NORMAL, 2 EQUIV,
+   3 VERIFICATION as in the model and the harness). *)
+Theorem C11_minimize_order_is_source : forall prod b0 b1 b2 b3,
+  minimize prod b0 b1 b2 b3 =
+  minimize_in_order prod [] (map Z.to_nat ForestMinimizeOrder.minimize_order)
+                    (fun k => nth k [b0; b1; b2; b3] []).
+Proof. exact minimize_is_source_order. Qed.
+
 Print Assumptions C11_subset.
 Print Assumptions C11_productive.
 Print Assumptions C11_minimal.
@@ -396,3 +409,4 @@ Print Assumptions C11_total_correct.
 Print Assumptions C11_harness_never_out_of_fuel.
 Print Assumptions C11_minimal_one_rule_per_class_total.
 Print Assumptions C11_one_rule_per_class_total.
+Print Assumptions C11_minimize_order_is_source.
